@@ -303,9 +303,16 @@ CO_ERR COLssStore(uint32_t baud, uint8_t id)
 void COIfCanReceive(CO_IF_FRM *f) { printf("cb canrx %x %u ", f->Identifier, f->DLC); hex(f->Data, f->DLC > 8 ? 8 : f->DLC); printf("\n"); }
 /* "pdotxcb <num>": inside the next COPdoTransmit callback the application triggers TPDO <num> (e.g. the one being sent: "send once more") */
 static int PtxNum = -1;
+static int PtxEmcy;      /* "pdotxprobe 1": the application looks at the emergency state from inside COPdoTransmit (a status TPDO maps 1001h) */
 void COPdoTransmit(CO_IF_FRM *f)
 {
     printf("cb pdotx %x %u ", f->Identifier, f->DLC); hex(f->Data, f->DLC > 8 ? 8 : f->DLC); printf("\n");
+    if (PtxEmcy) {
+        uint8_t h0 = 0xEE, reg = 0xEE;
+        (void)CODictRdByte(&Node->Dict, CO_DEV(0x1003, 0), &h0);
+        (void)CODictRdByte(&Node->Dict, CO_DEV(0x1001, 0), &reg);
+        printf("cb pdotxemcy %d %u %u\n", (int)COEmcyCnt(&Node->Emcy), h0, reg);
+    }
     if (PtxNum >= 0) { int n = PtxNum; PtxNum = -1; printf("cb pdotxtrig %d\n", n); COTPdoTrigPdo(Node->TPdo, (uint16_t)n); }
 }
 int16_t COPdoReceive(CO_IF_FRM *f){ printf("cb pdorx %x %u ", f->Identifier, f->DLC); hex(f->Data, f->DLC > 8 ? 8 : f->DLC); printf("\n"); return (int16_t)PdoVeto; }
@@ -824,6 +831,7 @@ int main(void)
                    if (e == CO_ERR_NONE) { CsBuf[n] = b; CsLen[n] = (uint32_t)sz; }
                    printf("ret %d\n", (int)e); }
 #endif
+        } else if (!strcmp(c, "pdotxprobe")) { PtxEmcy = (int)U(1);
         } else if (!strcmp(c, "pdotxcb")) { PtxNum = (int)strtol(ARG(1), NULL, 0);
         } else if (!strcmp(c, "appclear")) { PtxNum = -1; CbReqTmo = 0; CbReqRes = -1; CbEmcy = 0; CbTmrTag = -1; HecSub = 0; HccSub = 0; McbAct = 0; RcbAct = 0; RinCb = 0;   /* the scripted application forgets its plans */
         } else if (!strcmp(c, "csdocbreq")) { CbReqTmo = U(1); CbReqRes = -1;
